@@ -949,6 +949,19 @@ impl Core {
         self.log(id, LogLevel::Close, "", fmt, kvscan);
     }
 
+    // Verification hooks: timer state dump and counter poke
+    #[cfg(uazu_stakker_verif)]
+    #[doc(hidden)]
+    pub fn verif_timers_dump(&self) -> String {
+        self.timers.verif_dump()
+    }
+
+    #[cfg(uazu_stakker_verif)]
+    #[doc(hidden)]
+    pub fn verif_timers_poke(&mut self, seq: Option<u32>, gnn: Option<(u32, u32)>) {
+        self.timers.verif_poke(seq, gnn);
+    }
+
     /// Used in macros to get a [`Core`] reference
     ///
     /// [`Core`]: struct.Core.html
